@@ -692,6 +692,9 @@ func (a *asset) consolidateAsset(logger *slog.Logger) error {
 	if badDuration {
 		return fmt.Errorf("representations do not all have same duration")
 	}
+	// The segment duration of the asset is that of the reference representation: audio is
+	// re-segmented to follow it, all other representations have exactly its duration.
+	a.SegmentDurMS = int(math.Round(float64(refRep.duration()*1000) / float64(refRep.MediaTimescale*len(refRep.Segments))))
 	return nil
 }
 
